@@ -199,6 +199,17 @@ def c_branch_delete(name):
 
 
 @_rec
+def c_branch_flags(names=(), lst=False, rename=b"", delete=b""):
+    """branch with any combination of a positional name, --list, --rename and --delete (exactly one mode is valid)"""
+    names = [B(n) for n in names]
+    rename, delete = B(rename), B(delete)
+    argv = ["branch"] + (["--list"] if lst else []) + ([b"--rename=" + rename] if rename else []) \
+        + ([b"--delete=" + delete] if delete else []) + _pos(names)
+    return Cmd("branch-flags", argv, ["branch", "1" if lst else "0", hx(rename), hx(delete)] + [hx(n) for n in names],
+               parse=(lambda o: [l for l in o.split(b"\n") if l]) if lst and not names and not rename and not delete else None)
+
+
+@_rec
 def c_switch(name):
     return Cmd("switch", ["switch"] + _pos([name]), ["switch", "-", hx(B(name))])
 
